@@ -16,7 +16,9 @@ def run_item(item):
         return o, {k: list(v) for k, v in es.TimeSeries.items()}
     if item['type'] == 'econ':
         from harness import econ
-        built = econ.build(item['spec'], maxtime=item['spec']['horizon'])
+        # alone = without the read-only queries and unrelated models the history interleaves with the construction
+        alone = dict(item['spec'], probes=[])
+        built = econ.build(alone, maxtime=alone['horizon'])
         o = 'ok' if built.error is None else type(built.error).__name__
         return o, {k: list(v) for k, v in built.model.EquationSolver.TimeSeries.items()}
     from harness.props import c17
